@@ -6,7 +6,7 @@
    poison/close and the final peek of each tool are REGENERATED from the source
    (Gen/Src_wrappers.v); capacities, child policy, line lengths, flush points
    and the input are universally quantified. *)
-From PP Require Import Gen.Src_wrappers Wrap.WrapDefs Wrap.WrapProofs Wrap.WrapPairing.
+From PP Require Import Gen.Src_wrappers Wrap.WrapDefs Wrap.WrapProofs Wrap.WrapPairing Wrap.WrapTerm.
 
 (* generic: with enqueue-before-write no reachable state is stuck unless everything has terminated *)
 Theorem C05_enqueue_before_write_no_stuck :
@@ -54,6 +54,20 @@ Theorem C05_output_complete :
     rev (w_emitted s) = pairs 0 recs.
 Proof. intros pr ilen alen recs s. exact (emitted_complete pr ilen alen recs s). Qed.
 Print Assumptions C05_output_complete.
+
+(* termination: with enqueue-before-write every step strictly decreases a natural-number measure, so every
+   run (any interleaving, any fragmentation of the pipe transfers, any flush points) has at most
+   [wmeasure (w_init recs)] steps; with C05_enqueue_before_write_no_stuck every maximal run therefore ends
+   in the terminal state (both threads returned, child exited), with complete ordered output (above) *)
+Theorem C05_terminates :
+  forall pr ilen alen recs ls s,
+    (forall j, 1 <= ilen j) -> (forall j, 1 <= alen j) ->
+    (p_echo pr = true -> forall j, alen j = ilen j) ->
+    1 <= p_cin pr -> 1 <= p_cout pr -> p_order pr = true ->
+    run (wstep pr ilen alen) (w_init recs) ls = Some s ->
+    length ls <= wmeasure pr ilen alen (w_init recs).
+Proof. intros pr ilen alen recs ls s Hi Ha He Hci Hco Ho. exact (wrapper_runs_bounded pr ilen alen Hi Ha He Hci Hco Ho recs ls s). Qed.
+Print Assumptions C05_terminates.
 
 (* the three tools, with the parameters read from their source *)
 Definition tool_params (order poison_first final_peek : bool) (cin cout : nat) (echo : bool) (kpol : option nat) : wparams :=
